@@ -18,7 +18,7 @@ Open Scope N_scope.
 Theorem c01_sound : forall expand st now lim q u c,
   certgen expand st now lim q = Issued u c ->
   s_sealed st = false /\
-  (exists level, proves now q u level /\ qualifies (s_cfg st) level) /\
+  (exists level, proves st now q u level /\ qualifies (s_cfg st) level) /\
   q_target q = s_name st u /\ q_method q = HPost.
 Proof. exact certgen_sound. Qed.
 Print Assumptions c01_sound.
@@ -61,15 +61,15 @@ Print Assumptions c01_sufficient_iff.
    "password" is not listed, nothing is issued ... *)
 Theorem c01_password_only_refused : forall expand st now lim q,
   ~ In sPassword (s_cfg st) ->
-  (forall u level, proves now q u level -> level = bPassword) ->
+  (forall u level, proves st now q u level -> level = bPassword) ->
   exists code, certgen expand st now lim q = Refused code.
 Proof. exact password_only_refused. Qed.
 Print Assumptions c01_password_only_refused.
 
 (* ... and the plain case answers 401 *)
-Theorem c01_password_session_401 : forall expand st now lim q t,
+Theorem c01_password_session_401 : forall expand st now lim q w,
   s_sealed st = false -> ~ In sPassword (s_cfg st) ->
-  q_tls q = None -> q_cred q = Cookie t -> valid_session now t -> t_level t = bPassword ->
+  q_tls q = None -> q_cookie q = Some w -> valid_session (issuer_of st) now w -> w_level w = bPassword ->
   q_origin q = NoOrigin \/ q_origin q = SameOrigin \/ q_method q = HGet ->
   certgen expand st now lim q = Refused 401.
 Proof. exact password_session_401. Qed.
@@ -79,7 +79,7 @@ Print Assumptions c01_password_session_401.
    exhaustive (the Refused constructor carries no certificate, and its status is >= 400). *)
 Theorem c01_everything_else_refused : forall expand st now lim q,
   ~ (s_sealed st = false /\ q_method q = HPost /\
-     exists u level, proves now q u level /\ qualifies (s_cfg st) level /\ q_target q = s_name st u) ->
+     exists u level, proves st now q u level /\ qualifies (s_cfg st) level /\ q_target q = s_name st u) ->
   exists code, certgen expand st now lim q = Refused code /\ 400 <= code.
 Proof. exact everything_else_refused. Qed.
 Print Assumptions c01_everything_else_refused.
@@ -90,33 +90,100 @@ Proof. exact refused_is_error. Qed.
 Print Assumptions c01_refused_is_error.
 
 (* A user who did complete an acceptable factor is served (orderly request: Proofs/CertgenSpec.v
-   servable).  A session or password counts when no client certificate is presented with it
-   (checkAuth lets a presented certificate decide); the session must carry at least one of the
-   sixteen level bits. *)
-Theorem c01_complete_session : forall expand st now lim q t,
-  servable expand st q (s_name st (t_sub t)) ->
-  q_tls q = None -> q_cred q = Cookie t -> valid_session now t -> N.land (t_level t) bAny <> 0 ->
-  qualifies (s_cfg st) (t_level t) -> q_target q = s_name st (t_sub t) ->
-  exists c, certgen expand st now lim q = Issued (t_sub t) c.
+   servable).  The credentials of a request are a combination (client certificate x auth_cookie x
+   Basic header), looked at in this order: a presented certificate decides alone; otherwise the
+   auth_cookie, whatever Basic header comes with it; the Basic header only when no auth_cookie is
+   sent at all.  The session must carry at least one of the sixteen level bits. *)
+Theorem c01_complete_session : forall expand st now lim q w,
+  servable expand st q (s_name st (w_sub w)) ->
+  q_tls q = None -> q_cookie q = Some w -> valid_session (issuer_of st) now w -> N.land (w_level w) bAny <> 0 ->
+  qualifies (s_cfg st) (w_level w) -> q_target q = s_name st (w_sub w) ->
+  exists c, certgen expand st now lim q = Issued (w_sub w) c.
 Proof. exact complete_session. Qed.
 Print Assumptions c01_complete_session.
 
-Theorem c01_complete_password : forall expand st now q u,
-  servable expand st q (s_name st u) ->
-  q_tls q = None -> q_cred q = Basic u true false ->
-  qualifies (s_cfg st) bPassword -> q_target q = s_name st u ->
-  exists c, certgen expand st now true q = Issued u c.
+Theorem c01_complete_password : forall expand st now q b,
+  servable expand st q (s_name st (b_user b)) ->
+  q_tls q = None -> q_cookie q = None -> q_basic q = Some b -> b_ok b = true -> b_err b = false ->
+  qualifies (s_cfg st) bPassword -> q_target q = s_name st (b_user b) ->
+  exists c, certgen expand st now true q = Issued (b_user b) c.
 Proof. exact complete_password. Qed.
 Print Assumptions c01_complete_password.
 
+(* ... whatever cookie and Basic header the request carries beside the certificate *)
 Theorem c01_complete_cert : forall expand st now lim q c,
   servable expand st q (s_name st (c_cn c)) ->
-  q_tls q = Some c ->
+  q_tls q = Some c -> names_somebody st c ->
   (keymaster_cert c /\ qualifies (s_cfg st) bKMX509) \/ (ip_cert_ok c /\ qualifies (s_cfg st) bIPCert) ->
   q_target q = s_name st (c_cn c) ->
   exists d, certgen expand st now lim q = Issued (c_cn c) d.
 Proof. exact complete_cert. Qed.
 Print Assumptions c01_complete_cert.
+
+(* ---- combined credentials.  With a client certificate on the connection a certificate is issued
+   only if the CERTIFICATE's own identity and level qualify - a session cookie next to it adds
+   nothing, be it valid, expired, not yet valid or foreign ... *)
+Theorem c01_certificate_decides : forall expand st now lim q c u d,
+  q_tls q = Some c -> names_somebody st c -> certgen expand st now lim q = Issued u d ->
+  exists level, cert_proves st q u level /\ qualifies (s_cfg st) level.
+Proof. exact certificate_decides. Qed.
+Print Assumptions c01_certificate_decides.
+
+(* ... and the answer does not depend on them at all *)
+Theorem c01_credentials_beside_certificate_ignored : forall expand st now lim lim' q c ck b ck' b',
+  q_tls q = Some c -> names_somebody st c ->
+  certgen expand st now lim (with_creds q ck b) = certgen expand st now lim' (with_creds q ck' b').
+Proof. exact credentials_beside_certificate_ignored. Qed.
+Print Assumptions c01_credentials_beside_certificate_ignored.
+
+(* A client certificate whose common name is the EMPTY string names nobody (`tlsAuthUser != ""`,
+   `authData.Username != ""` in checkAuth) and is no credential: whoever signed it, the request is
+   refused unless the address test accepts the certificate, and then it is answered exactly as the
+   same request without a certificate. *)
+Theorem c01_nameless_certificate_no_identity : forall expand st now lim q c,
+  q_tls q = Some c -> s_name st (c_cn c) = [] ->
+  (ip_restricted c = IpOk /\ certgen expand st now lim q = certgen expand st now lim (without_tls q)) \/
+  (ip_restricted c <> IpOk /\ exists code, certgen expand st now lim q = Refused code /\ 400 <= code).
+Proof. exact nameless_certificate_no_identity. Qed.
+Print Assumptions c01_nameless_certificate_no_identity.
+
+(* The session cookie's issuer and audience are byte strings, compared for EQUALITY with the server's
+   issuer string (idpGetIssuer: "https://" + HostIdentity + listen address unless ":443").  Without a
+   client certificate a request that carries an auth_cookie gets a certificate only if the cookie's
+   iss IS that string and its first audience IS that string (and the cookie is otherwise a currently
+   valid session of the user named, at a qualifying level) - whatever Basic header comes with it ... *)
+Theorem c01_session_issuer_exact : forall expand st now lim q w u d,
+  q_tls q = None -> q_cookie q = Some w -> certgen expand st now lim q = Issued u d ->
+  w_iss w = issuer_of st /\ (exists rest, w_aud w = issuer_of st :: rest) /\
+  valid_session (issuer_of st) now w /\ u = w_sub w /\ qualifies (s_cfg st) (w_level w).
+Proof. exact session_issuer_exact. Qed.
+Print Assumptions c01_session_issuer_exact.
+
+(* ... so every near miss - a proper prefix, an extension by a port, a label, a path, a dot or a
+   slash, another case, another scheme, surrounding blanks, the empty string, the right value in the
+   second place of the audience list - is refused with an error *)
+Theorem c01_foreign_session_refused : forall expand st now lim q w,
+  q_tls q = None -> q_cookie q = Some w ->
+  (w_iss w <> issuer_of st \/ forall rest, w_aud w <> issuer_of st :: rest) ->
+  exists code, certgen expand st now lim q = Refused code /\ 400 <= code.
+Proof. exact foreign_session_refused. Qed.
+Print Assumptions c01_foreign_session_refused.
+
+(* The property's predicate as a decision procedure (Model/CertgenCases.v entitled), evaluated by the
+   generated case files on the OBSERVED answer of every case on which implementation and model
+   differ: it decides exactly the specification ... *)
+Theorem c01_entitled_decides : forall st now q u,
+  entitled st now q u = true <->
+  (s_sealed st = false /\ q_method q = HPost /\ q_target q = s_name st u /\
+   exists level, proves st now q u level /\ qualifies (s_cfg st) level).
+Proof. exact entitled_iff. Qed.
+Print Assumptions c01_entitled_decides.
+
+(* ... and the model never violates it *)
+Theorem c01_issued_entitled : forall expand st now lim q u c,
+  certgen expand st now lim q = Issued u c -> entitled st now q u = true.
+Proof. exact issued_entitled. Qed.
+Print Assumptions c01_issued_entitled.
 
 (* The stricter reading of the "password" entry (only a credential carrying the password factor
    meets it) is NOT what the handler implements: with ["password"] configured a federated-only
@@ -157,11 +224,33 @@ Proof. vm_compute. repeat split; reflexivity. Qed.
 
 Example c01_servable_nonvacuous :
   servable no_expand (case_server false [sTOTP]) (case_req (nth 11 shapes default_shape) 0 0) n_alice /\
-  valid_session 0 (tok 1 bTOTP) /\ qualifies [sTOTP] bTOTP /\ ~ qualifies [sOkta] bTOTP.
+  valid_session iss0 0 (tok 1 bTOTP) /\ qualifies [sTOTP] bTOTP /\ ~ qualifies [sOkta] bTOTP.
 Proof.
   split; [|split; [|split]].
   - unfold servable. simpl. repeat split; auto. exists 0, false. repeat split; auto; discriminate.
-  - vm_compute. repeat split; discriminate.
+  - closed_facts.
   - right. right. exists sTOTP, FTOTP. repeat split; [left; reflexivity|constructor].
   - apply sufficient_false_iff. reflexivity.
+Qed.
+
+(* combined credentials, non-vacuity (block D of the enumeration, xshapes): under [U2F; TOTP]
+   a keymaster certificate of alice alone is refused, and stays refused next to a valid U2F cookie,
+   an expired U2F cookie and a good password of the same user; without a certificate the valid cookie is
+   served; under [password] the certificate is served whatever comes with it.  Issuer near misses:
+   with the listen address :8443 the cookie of "https://keymaster.example:8443" is served, the one of
+   "https://keymaster.example" (proper prefix) and of "...:84430" are refused.  A main-CA certificate
+   with an empty common name: 403 with or without a valid cookie; an address-restricted one accepted by
+   the address test: the cookie decides.  A cookie without exp claim is refused, one without nbf claim is
+   served, one that expires in 2100 is served where its factor is listed. *)
+Definition xclass (cfg : N) (i : nat) : N := run_xcase (cfg, nth i xshapes default_shape).
+Example c01_combined_nonvacuous :
+  map (xclass 36) [127; 130; 139; 159; 0; 3]%nat = [0; 0; 0; 0; 0; 6] /\
+  map (xclass 1) [127; 130; 139; 159]%nat = [6; 6; 6; 6] /\
+  n_xshapes = 1589 /\ map (xclass 36) [1493; 1579; 1504; 1583]%nat = [6; 0; 0; 6] /\
+  map (xclass 36) [1016; 1019; 1143; 1146; 1273]%nat = [0; 0; 0; 6; 6] /\
+  map (xclass 36) [18; 19; 20]%nat = [0; 6; 6] /\ map (xclass 4) [20]%nat = [0] /\
+  length (near_misses 1) = 19%nat /\ ~ In (case_issuer 1) (near_misses 1) /\ ~ In (case_issuer 0) (near_misses 0).
+Proof.
+  split; [vm_compute; reflexivity|]. split; [vm_compute; reflexivity|]. split; [reflexivity|]. split; [vm_compute; reflexivity|]. split; [vm_compute; reflexivity|]. split; [vm_compute; reflexivity|]. split; [vm_compute; reflexivity|]. split; [reflexivity|].
+  split; intro H; vm_compute in H; repeat (destruct H as [H|H]; [discriminate|]); exact H.
 Qed.
